@@ -10,6 +10,7 @@
 /*@unit
 name: arglist_eq.plain
 tier: B
+native: self
 define: U_PLAIN
 src: options.c
 bound: handle_arglist(hasequal=1) on the 4 unquoted texts "a", "a b", " a  b ", "ab c d"
@@ -20,6 +21,7 @@ timeout: 300
 /*@unit
 name: arglist_eq.quoted
 tier: B
+native: self
 define: U_QUOTED
 src: options.c
 bound: handle_arglist(hasequal=1) on the 3 texts "a \"b c\"", "'a b' c", "" (quoted stretch / empty text)
@@ -34,10 +36,14 @@ timeout: 300
 #define VOPT_CONCRETE
 #include "vprelude.h"
 #include "env_options.h"
-#define strtol vopt_strtol
-#include "src/options.c"
+#ifndef VERIF_NATIVE
+# define strtol vopt_strtol            /* cbmc: decimal model; native replay: the real strtol */
+#endif
+#include "rawsrc/options.c"            /* the real code, un-annotated copy (no loop contracts needed here) */
 #undef strtol
-#include "src/strings.c"     /* real, un-annotated (not in `src:`) */
+#ifndef VERIF_NATIVE
+#include "src/strings.c"     /* real, un-annotated (not in `src:`); a native replay links it */
+#endif
 #include "options.h"
 
 static char **t_args;
